@@ -242,5 +242,6 @@ int main(int argc, char **argv) {
   D("sdbm", z_sdbm_domain_t) D("soct", z_soct_domain_t) D("disint", z_dis_interval_domain_t) D("term", z_term_domain_t)
   D("termdbm", z_term_dbm_t) D("num", z_num_domain_t) D("tvpi", z_fixed_tvpi_domain_t) D("boolnum", z_bool_num_domain_t)
   D("boolint", z_bool_interval_domain_t) D("aabool", z_aa_bool_int_t) D("asbool", z_as_bool_num_t) D("aaint", z_aa_int_t) D("assdbm", z_as_sdbm_t) D("lw", z_soct_domain_lw_t) D("powaa", z_pow_aa_int_t)
+  D("aaterm", z_aa_term_int_t) D("asdis", z_as_dis_int_t) D("rgnint", z_rgn_int_t) D("rgnsdbm", z_rgn_sdbm_t) D("rgnsign", z_rgn_sign_t) D("rgncst", z_rgn_constant_t) D("rgnsc", z_rgn_sign_constant_t) D("rgnbool", z_rgn_bool_int_t)
   crab::outs() << "unknown domain\n"; return 2;
 }
